@@ -36,6 +36,18 @@ def _more2(check, na):
           TB + " Parametricity of one-call delegation.", "call-graph delegation analysis + comparison-footprint agreement", "DESIGN.md 4/C14, 6")
 
 
+def _more3(check, na):
+    check("C12", "other",
+          "Tag discipline decided by extracting the integer expressions of from_first/from_second/is_first/borrow from MIR def-use chains and evaluating them on feasible payload addresses (store ptr / ptr|1, test word&1==0, strip only the tag, each typed at its own parameter); variant arms of Clone/Drop/as_first/as_second/PartialEq use their own type and constructor; the payload address parity lemma from repr(C) layout. Width and niche are checked by C11's compile-time witnesses.",
+          TB + " Expression evaluator analysis/symx.py.", "symbolic expression extraction from MIR + evaluation on a finite address set; variant-arm rules", "DESIGN.md 4/C12")
+    check("C13", "proof",
+          "rustc is the oracle: impl-table exactness of the twelve manual Send/Sync impls (for all payload types at once) and a witness corpus compiled against an rlib of the current tree in each configuration - generic positives, generic negatives with exactly one bound missing (E0277 on the marked line), witness payloads of each auto-trait class, every borrow-escape and aliasing route, drop-check per handle kind - each negative witness with exact (line, code) expectations and a compiling twin. obligations = expected rejections + twins + accepts + impl facts, all discharged by rustc.",
+          "Trusted base: rustc nightly's type, borrow and drop checkers; witnesses cover the routes listed in the property (a route nobody wrote down is not covered).", "compile-pass / compile-fail witnesses with twins + impl-predicate exactness", "DESIGN.md 4/C13, 2/E-B")
+    check("C17", "other",
+          "Linear-use shape of the four serde methods from MIR def-use: one user call on the handle's whole Deref target, serializer/deserializer moved into it exactly once, result returned unchanged (serialize) or consumed only by Result::map with a fresh-sole-owner constructor (deserialize); nothing allocated before the payload's deserializer returns; path set {nothing, one fresh sole owner}. By parametricity the serializer sees the payload's call sequence.",
+          TB + " Result::map semantics; parametricity.", "def-use linearity and path-set rules on the serde impls", "DESIGN.md 4/C17")
+
+
 _reg0 = register
 
 
@@ -43,3 +55,4 @@ def register(check, na):  # noqa: F811
     _reg0(check, na)
     _more(check, na)
     _more2(check, na)
+    _more3(check, na)
